@@ -4,7 +4,7 @@
    The container-as-key case is refuted (witness). *)
 From Coq Require Import ZifyBool.
 From Verif Require Import Common.Base Common.Tactics Common.Lx Json.Model Json.Lex Json.Spec Json.Grammar
-  Json.AcceptLex Json.Proofs Json.Trace Json.Accept.
+  Json.GrammarProofs Json.AcceptLex Json.Proofs Json.Trace Json.Accept.
 
 Lemma len_app3 (a tok lead : list Z) : len (a ++ tok ++ lead) = len a + len tok + len lead.
 Proof. rewrite !len_app. lia. Qed.
@@ -134,10 +134,11 @@ Qed.
 (* ... but an opening bracket in key position is NOT rejected: the document {[1]} is not valid JSON and is
    parsed to the end of the input without any error; the second unit is a StartArray *)
 Theorem nonstring_key_container_refuted_proof :
-  exists d units final, valid_b d = false /\ drive (S (length d)) (json_init d) = Done units final /\
+  exists d units final, ~ value d /\ drive (S (length d)) (json_init d) = Done units final /\
     err_kind final = 1 /\ map sg units = [G_StartObject; G_StartArray; G_Number; G_EndArray; G_EndObject].
 Proof.
-  exists [123; 91; 49; 93; 125]. eexists _, _. split; [vm_compute; reflexivity|].
+  exists [123; 91; 49; 93; 125]. eexists _, _. split.
+  { intros Hv. apply valid_b_value_proof in Hv. vm_compute in Hv. discriminate. }
   split; [vm_compute; reflexivity|]. split; reflexivity.
 Qed.
 
